@@ -185,6 +185,30 @@ def check(ctx):
         ctx.require(ok3, "R-PAIR", "next:advance-restored", "iterable.next() is undone by iterable.prev() on every path after the nested iteration, error path included",
                     "Next::execute can leave after the nested iteration (through the `?` on its result) without moving the iterator back: an xor in the enclosing iteration that catches "
                     "the failure then runs with the iterator still on the later element and issues calls with arguments the sequential reading never produces")
+    # scalar fold waits for its iterable: every arm that resolves a variable goes through joinable! (a not-yet-delivered
+    # variable makes the fold wait, it must not surface as a catchable error that an xor would "handle")
+    ctx.clause("R-SIBLING FoldScalar::execute: every variable-resolving arm of the iterable match is wrapped in joinable!")
+    fsx = exe(F, "::FoldScalar<'i>")
+    creators = [c for c in fsx.calls if c.path.split("::")[-1].startswith("create_") and "iterable" in c.path.split("::")[-1]]
+    ctx.floor("R-SIBLING", "iterable constructors in FoldScalar::execute", len(creators), 5)
+    for c in creators:
+        e_ = lib.result_edges(fsx, c)
+        err = e_.get("err")
+        okj = err is not None and any(x.bb in fsx.reach_from(err) and x.path.endswith("is_joinable") for x in fsx.calls)
+        ctx.require(okj, "R-SIBLING", "fold-scalar:joinable:" + c.path.split("::")[-1], "%s: its error is tested with is_joinable (joinable!)" % c.path.split("::")[-1],
+                    "FoldScalar::execute propagates the error of %s without the joinable! test: a fold over a variable that has not arrived yet raises a catchable error instead of waiting, and an enclosing xor runs its handler"
+                    % c.path.split("::")[-1])
+    # scalar scoping: a value is rewritten in place only when the cell belongs to the CURRENT depth; otherwise a new cell
+    # is pushed for this depth (so an assignment made inside an iteration dies with that iteration)
+    ctx.clause("R-OP ValuesSparseMatrix::set_value rewrites in place iff the last cell's depth equals the current depth (single condition)")
+    sv = F.fn("values_sparse_matrix::ValuesSparseMatrix::set_value")
+    svp = Prov(sv)
+    conds = [b for b in lib.bool_branches(sv, svp) if not lib.is_logging_expansion(sv.blocks[b.bb]["term"].get("ex", ()))]
+    dep = [b for b in conds if b.form[0] == "==" and {("depth" in show(b.form[1])), ("depth" in show(b.form[2]))} == {True} and "current_depth" in (show(b.form[1]) + show(b.form[2]))]
+    other = [show(b.expr)[:60] for b in conds if b not in dep and ("is_none" in show(b.expr) or "is_some" in show(b.expr) or "value" in show(b.expr))]
+    ctx.require(len(dep) == 1 and not other, "R-OP", "scalars:set_value-rewrite-iff-same-depth", "in-place rewrite iff last_cell.depth == current_depth",
+                "ValuesSparseMatrix::set_value's in-place-rewrite condition changed (depth tests: %d, further tests on the cell's value: %s): a value assigned inside a fold iteration can land in an outer scope's cell and outlive the iteration"
+                % (len(dep), other))
     # Never
     nv = exe(F, "::Never")
     ok = len(nv.calls_to("ExecutionCtx::make_subgraph_incomplete")) == 1 and all(nv.dominates(nv.calls_to("ExecutionCtx::make_subgraph_incomplete")[0].bb, r) for r in nv.returns)
